@@ -24,6 +24,7 @@ FILE = "Cython/Compiler/ExprNodes.py"
 I = z3.IntSort()
 NONESAFE = z3.Function("as_none_safe_node_result", I, I)
 COERCED = z3.Function("index_coerced_to_ssize_t_and_simple", I, I)
+TRUTHY = z3.Function("truthy", I, z3.BoolSort())            # truth value of an arbitrary Python object (the front end's predicate)
 TYPEFLAGS = ("is_unicode_char", "is_int", "is_pyanydict_type", "is_pybytearray_type", "is_pylist_type", "is_pytuple_type", "is_pystr_type",
              "is_pybytes_type", "is_bytes_or_str_or_bytearray", "signed", "supports_container_type", "is_pyobject")
 FIELDS = {"obj:IndexNode": {"base": "ref:obj:Node", "index": "ref:obj:Node", "type": "ref:obj:Type", "is_temp": "int", "pos": "any",
@@ -72,7 +73,11 @@ def _post(e):
     flag = lambda k: e.h0.fld(k, bt) != 0      # noqa: E731
     direct = Or(flag("is_pystr_type"), flag("is_pybytes_type"), flag("is_pybytearray_type"), flag("is_pylist_type"), flag("is_pytuple_type"))
     base0 = e.h0.fld("base", e.self)
-    return Implies(direct, e.h.fld("base", e.self) == NONESAFE(base0))
+    # is_temp == 0 selects the UNCHECKED macro access (PyList_GET_ITEM, PyTuple_GET_ITEM, PyByteArray_AS_STRING(b)[i]): only
+    # under boundscheck=False (the statement speaks of the default directives: out-of-range indices raise IndexError)
+    bounds_on = e.h0.val(e.h0.fld("directives", e.env), intern_id("boundscheck")) != 0       # (directive values are cells: truthy = non-zero)
+    return And(Implies(direct, e.h.fld("base", e.self) == NONESAFE(base0)),
+               Implies(e.h.fld("is_temp", e.self) == 0, Not(bounds_on)))
 
 
 def _native(model, obname):
@@ -82,7 +87,8 @@ def _native(model, obname):
     src = ("# cython: language_level=3\n"
            "def str_get(str s, Py_ssize_t i): return s[i]\ndef bytes_get(bytes s, int i): return s[i]\n"
            "def bytearray_get(bytearray s, int i): return s[i]\ndef bytearray_set(bytearray s, int i, v): s[i] = v\n"
-           "def list_get(list s, int i): return s[i]\ndef tuple_get(tuple s, int i): return s[i]\n")
+           "def list_get(list s, int i): return s[i]\ndef tuple_get(tuple s, int i): return s[i]\n"
+           "def ba_unsigned(bytearray b, unsigned int i): return b[i]\ndef ba_literal(bytearray b): return b[3]\n")
     try:
         ctext, cfile = cextract.compile_pyx(src, name="dvnoneindex")
     except Exception as ex:
@@ -99,6 +105,11 @@ for name, args in (("str_get", (None, 0)), ("str_get", (None, -1)), ("bytes_get"
                    ("list_get", (None, 0)), ("tuple_get", (None, 0))):
     try: r = getattr(m, name)(*args); bad.append((name, "returned", repr(r)))
     except TypeError: pass
+    except Exception as e: bad.append((name, type(e).__name__))
+# an out-of-range index must raise IndexError under the default directives (index == len of a bytearray: reads the NUL, memory-safe)
+for name, args in (("ba_unsigned", (bytearray(b"ABC"), 3)), ("ba_unsigned", (bytearray(b""), 0)), ("ba_literal", (bytearray(b"ABC"),))):
+    try: r = getattr(m, name)(*args); bad.append((name, "returned", repr(r)))
+    except IndexError: pass
     except Exception as e: bad.append((name, type(e).__name__))
 print(bad)
 ''' % d
